@@ -99,7 +99,7 @@ def gen_case(rng, max_leaves=12, nops=None, small=False):
     rooting = rng.choice([None, False, False, True, True])
     rootings = [rooting if rng.random() < 0.9 else rng.choice([None, False, True]) for _ in specs]
     tl = [{"ns": 0, "spec": s, "rooted": r_} for s, r_ in zip(specs, rootings)]
-    if rng.random() < 0.12:
+    if rng.random() < 0.15:
         f = trees.gen_tree(rng, n, lengths="dyadic", taxa=[100 + x for x in rng.sample(taxa, n)])
         tl.append({"ns": 1, "spec": f, "rooted": rooting})
     holes = rng.choice([0, 0, 1, 3])
@@ -121,7 +121,7 @@ def gen_case(rng, max_leaves=12, nops=None, small=False):
             ops.append(["encode", rng.choice(main)])
         else:
             kind = rng.choice(["symdiff", "fpfn", "missing", "wrf", "wrf", "wrf", "euclid", "euclid"])
-            if rng.random() < 0.08:
+            if rng.random() < (0.25 if nt > len(main) else 0.05):
                 a, b = rng.randrange(nt), rng.randrange(nt)
             elif rng.random() < 0.1:
                 a = b = rng.choice(main)
@@ -303,7 +303,25 @@ def probe_policy():
     return "Current"
 
 
+def probe_basal_drop():
+    """does collapse_basal_bifurcation() still drop the removed seed edge's length when the kept edge has none
+    (finding basal-collapse-drops-length-onto-missing)?  The model has both forms (C04Model.add_len, flag mg)."""
+    import dendropy
+    t = dendropy.Tree.get(data="[&U]((A:1,B:1),(C:1,D:1):1);", schema="newick")
+    t.encode_bipartitions()
+    lens = [nd.edge.length for nd in t.seed_node.child_nodes() if nd.child_nodes()]
+    return lens == [None]
+
+
 _POLICY = [None]
+_DROPS = [None]
+
+
+def library_drops():
+    if _DROPS[0] is None:
+        _DROPS[0] = probe_basal_drop()
+    return _DROPS[0]
+
 
 
 def policy():
@@ -375,7 +393,7 @@ def observe(case):
                 lv.last = cur
         rec["changed"] = ch
         steps.append(rec)
-    return {"acc": acc, "policy": policy(), "steps": steps}
+    return {"acc": acc, "policy": policy(), "merge": not library_drops(), "steps": steps}
 
 
 # ------------------------------------------------------------------------------------------------
@@ -584,7 +602,9 @@ def _apply_changes(cur, dropped, rec, where):
             continue
         same_class = (before[1] is True) == (rooted is True)
         if same_class and ideal_splits(*before) != ideal_splits(spec, rooted):
-            if _drops_length(before):
+            # (one call may normalise twice - same object passed twice - so the collapse that drops the length may
+            # start from the tree with its unifurcations already suppressed)
+            if _drops_length(before) or _drops_length((_suppressed(before[0]), before[1])):
                 dropped[i] = True
             else:
                 return ("%s changed the splits / split lengths of tree %d while normalising it: %s -> %s"
@@ -595,6 +615,16 @@ def _apply_changes(cur, dropped, rec, where):
 def _root_bifurcation_left(struct):
     spec, rooted = struct
     return rooted is not True and len(spec["kids"]) == 2
+
+
+def _suppressed(spec):
+    """the spec tree without its nodes of outdegree one (lengths merged downwards)"""
+    def go(n, carry):
+        ln = _merge(carry, n["len"])
+        if len(n["kids"]) == 1:
+            return go(n["kids"][0], ln)
+        return {"id": n["id"], "taxon": n["taxon"], "label": n["label"], "len": ln, "kids": [go(k, None) for k in n["kids"]]}
+    return go(spec, None)
 
 
 def _drops_length(struct):
@@ -654,7 +684,7 @@ def to_coq(case, obs):
     ops = clist([c_op(o, r) for o, r in zip(case["ops"], obs["steps"])])
     ex = clist([cpair(c_out(r["out"]), clist([cpair(cnat(i), c_struct(s, ro)) for i, s, ro in r["changed"]]))
                 for r in obs["steps"]])
-    return "(mkCase %s %s %s %s %s)" % (obs["policy"], acc, tl, ops, ex)
+    return "(mkCase %s %s %s %s %s %s)" % (obs["policy"], cbool(obs["merge"]), acc, tl, ops, ex)
 
 
 def nontrivial(case, obs):
@@ -824,6 +854,9 @@ def run(tier, seed, replay=None):
                     show_fn="case_run", nontrivial=nontrivial, search=search, shard=75 if tier == "quick" else 150,
                     sample_fn=show_sample)
     ctx.notes.append("missing-length policy of the working tree (probed): %s" % policy())
+    ctx.notes.append("collapse_basal_bifurcation() of the working tree (probed): %s"
+                     % ("drops the removed length onto a missing one (mg = false)" if library_drops()
+                        else "takes the removed length over (mg = true)"))
     return ctx.finish(
         level="proof",
         rule="random pairs/triples of trees (1-25 leaves; binary/polytomy/star/caterpillar, unifurcations, seed-edge lengths; "
